@@ -1880,7 +1880,7 @@ def tracing_iter_next(E, st, frame, b, t, c, args):
 def const_bytes_of(E, st, v):
     v = E.expand(v)
     if v[0] == 'R' and v[1] is not None and isinstance(v[1], tuple) and v[1][0] == 'k':
-        s = st.cells.get(v[1])
+        s = st.cells.get(v[1]) or E.kcells.get(v[1])
         if s is not None and s[0] == 'S' and s[3] is not None and all(is_const(x) for x in s[3]):
             return bytes(x[1] for x in s[3])
     return None
